@@ -14,6 +14,17 @@
 //!   cvf  text lines   a whole data set SAM -> BAM: header text + record lines (comma-separated hex, each with
 //!                     its LF) through the same pipeline, every record; obs = `Ok:<hex of the whole BAM stream>` |
 //!                     `Err` (model NV.Util.ConvertFile.convert_sam_bam_file)
+//!   cvfb text         (round 7, model NV.Util.ConvertFile2.convert_sam_bam_bytes) the WHOLE SAM text as bytes
+//!                     (the split into header and lines is the model's: C06's reader from bytes) SAM -> raw BAM;
+//!                     obs as cvf.  Texts: the cvf data sets, the same without header, with a last line without LF,
+//!                     with CR LF line ends, with an `@` line after the records, empty
+//!   cvbf bam          (convert_bam_sam_file) a whole uncompressed BAM stream (what the real BAM writer made of a
+//!                     cvf data set) BAM -> SAM: obs = `Ok:<hex of the whole SAM text>` | `Err`
+//!   cvfz text         (convert_sam_bam_bgzf_l0 + bgzf_block_sizes) SAM -> BGZF BAM through the generic writer
+//!                     (default compression): obs = `Ok:<ISIZE of every block, EOF block included>:<hex of the
+//!                     inflated payload>` | `Err` -- DEFLATE itself is not compared (the model uses stored blocks)
+//!   cvbz file         (convert_bam_sam_bgzf_l0, C01's executable inflater) a BGZF BAM file of the REAL writer
+//!                     (real DEFLATE) BGZF BAM -> SAM: obs as cvbf
 //!   refs = comma-separated hex names (every reference sequence has length 1000)
 //! The generated records carry no float fields (float text is an oracle of the C06 model).
 //! The oracle of both kinds: the output, read back by the target format's own reader, is the input
@@ -93,6 +104,106 @@ fn pipe_all(src: Vec<u8>, dst: Format) -> Result<Vec<u8>, io::Error> {
     w.finish(&header)?;
     drop(w);
     Ok(sink.bytes())
+}
+
+/// pipe every record of `src` (autodetected) into a generic writer of `dst` with compression `k`
+fn pipe_all_k(src: Vec<u8>, dst: Format, k: Option<alignment::io::CompressionMethod>) -> Result<Vec<u8>, io::Error> {
+    let mut r = alignment::io::reader::Builder::default().build_from_reader(Cursor::new(src))?;
+    let header = r.read_header()?;
+    let sink = FaultySink::new(vec![]);
+    let mut w = alignment::io::writer::Builder::default()
+        .set_format(dst)
+        .set_compression_method(k)
+        .build_from_writer(sink.clone())?;
+    w.write_header(&header)?;
+    let mut rec = alignment::Record::Sam(sam::Record::default());
+    while r.read_record(&header, &mut rec)? != 0 {
+        w.write_record(&header, &rec)?;
+    }
+    w.finish(&header)?;
+    drop(w);
+    Ok(sink.bytes())
+}
+
+/// the BGZF blocks of a file: (ISIZE of every block, the inflated payload)
+fn bgzf_blocks(file: &[u8]) -> io::Result<(Vec<usize>, Vec<u8>)> {
+    use std::io::Read;
+    let mut sizes = vec![];
+    let mut payload = vec![];
+    let mut p = 0usize;
+    while p < file.len() {
+        if file.len() - p < 18 {
+            return Err(io::Error::new(io::ErrorKind::InvalidData, "short block header"));
+        }
+        let bsize = u16::from_le_bytes([file[p + 16], file[p + 17]]) as usize + 1;
+        if bsize < 26 || p + bsize > file.len() {
+            return Err(io::Error::new(io::ErrorKind::InvalidData, "bad BSIZE"));
+        }
+        let blk = &file[p..p + bsize];
+        let isize = u32::from_le_bytes([blk[bsize - 4], blk[bsize - 3], blk[bsize - 2], blk[bsize - 1]]) as usize;
+        let mut d = flate2::read::DeflateDecoder::new(&blk[18..bsize - 8]);
+        let mut out = vec![];
+        d.read_to_end(&mut out)?;
+        if out.len() != isize {
+            return Err(io::Error::new(io::ErrorKind::InvalidData, "ISIZE mismatch"));
+        }
+        sizes.push(isize);
+        payload.extend_from_slice(&out);
+        p += bsize;
+    }
+    Ok((sizes, payload))
+}
+
+fn run_file(c: &Case) -> Obs {
+    let input = c.b(0);
+    let to_bam = c.kind == "cvfb" || c.kind == "cvfz";
+    let bgzf = c.kind == "cvfz";
+    let (dst, k) = if to_bam {
+        (Format::Bam, if bgzf { Some(alignment::io::CompressionMethod::Bgzf) } else { None })
+    } else {
+        (Format::Sam, None)
+    };
+    let i2 = input.clone();
+    let out = match guarded(std::panic::AssertUnwindSafe(move || pipe_all_k(i2, dst, k))) {
+        Outcome::Panicked(_) => return Obs::ok("Panic", true),
+        Outcome::Done(Err(_)) => return Obs::ok("Err", false),
+        Outcome::Done(Ok(out)) => out,
+    };
+    let (obs, out_plain) = if bgzf {
+        match bgzf_blocks(&out) {
+            Ok((sizes, payload)) => (
+                format!("Ok:{}:{}", sizes.iter().map(|s| s.to_string()).collect::<Vec<_>>().join(","), hex(&payload)),
+                payload,
+            ),
+            Err(e) => return Obs::fail("-", "convert-sam-to-bam-bgzf-output-not-bgzf", e.to_string()),
+        }
+    } else {
+        (format!("Ok:{}", hex(&out)), out.clone())
+    };
+    // oracle: the records of source and target agree
+    let src_plain = if c.kind == "cvbz" {
+        match bgzf_blocks(&input) {
+            Ok((_, p)) => p,
+            Err(_) => return Obs::ok(obs, false),
+        }
+    } else {
+        input.clone()
+    };
+    let (a, b) = if to_bam {
+        (guarded(std::panic::AssertUnwindSafe(move || canon_all_sam(src_plain))), guarded(std::panic::AssertUnwindSafe(move || canon_all_bam(out_plain))))
+    } else {
+        (guarded(std::panic::AssertUnwindSafe(move || canon_all_bam(src_plain))), guarded(std::panic::AssertUnwindSafe(move || canon_all_sam(out_plain))))
+    };
+    let dir = if to_bam { "sam-to-bam" } else { "bam-to-sam" };
+    match (a, b) {
+        (Outcome::Done(Ok(a)), Outcome::Done(Ok(b))) => match crate::common::first_diff(&a, &b) {
+            Some(d) => Obs::fail(obs, &format!("convert-{dir}-file-changes-records"), d),
+            None => Obs::ok(obs, !a.is_empty()),
+        },
+        (Outcome::Done(Err(_)), _) => Obs::ok(obs, false),
+        (_, Outcome::Done(Err(e))) => Obs::fail(obs, &format!("convert-{dir}-file-output-unreadable"), format!("{} {e}", nv::errkind(&e))),
+        _ => Obs::fail(obs, "convert-reader-panic", "a format reader panicked on the conversion's input or output"),
+    }
 }
 
 fn canon_all_bam(file: Vec<u8>) -> io::Result<Vec<Vec<u8>>> {
@@ -311,6 +422,54 @@ pub fn generate(rng: &mut Rng, tier: &str, w: &mut CaseWriter) {
             hex(&t)
         }).collect();
         w.push("cvf", vec![hex(spec.header_text.as_bytes()), if lines.is_empty() { "_".into() } else { lines.join(",") }]);
+        // round 7: the same data set as ONE text (the model splits it), and shapes of the text
+        let mut text = spec.header_text.clone().into_bytes();
+        let mut body = Vec::new();
+        for l in &spec.lines {
+            body.extend_from_slice(strip_floats(l).as_bytes());
+            body.push(b'\n');
+        }
+        text.extend_from_slice(&body);
+        w.push("cvfb", vec![hex(&text)]);
+        w.push("cvfz", vec![hex(&text)]);
+        match i % 8 {
+            1 if !body.is_empty() => {
+                let mut t = text.clone();
+                t.pop(); // last line without LF
+                w.push("cvfb", vec![hex(&t)]);
+            }
+            2 => {
+                let t: Vec<u8> = text.iter().flat_map(|b| if *b == b'\n' { vec![b'\r', b'\n'] } else { vec![*b] }).collect();
+                w.push("cvfb", vec![hex(&t)]);
+            }
+            3 => {
+                let mut t = text.clone();
+                t.extend_from_slice(b"@CO\tlate\n");
+                w.push("cvfb", vec![hex(&t)]);
+            }
+            5 => w.push("cvfb", vec![hex(&body)]),
+            6 => w.push("cvfb", vec!["_".into()]),
+            _ => {}
+        }
+        // what the real BAM writer makes of it becomes the BAM -> SAM cases
+        if let Outcome::Done(Ok(bam)) = guarded(std::panic::AssertUnwindSafe(|| pipe_all_k(text.clone(), Format::Bam, None))) {
+            w.push("cvbf", vec![hex(&bam)]);
+        }
+        if let Outcome::Done(Ok(bam)) = guarded(std::panic::AssertUnwindSafe(|| pipe_all_k(text.clone(), Format::Bam, Some(alignment::io::CompressionMethod::Bgzf)))) {
+            w.push("cvbz", vec![hex(&bam)]);
+        }
+    }
+    // a stream of more than one BGZF block (> 64 KiB of BAM)
+    for j in 0..(if thorough { 3 } else { 1 }) {
+        let spec = crate::align::gen_spec(rng.next(), 8, 1, 0);
+        let mut text = spec.header_text.clone().into_bytes();
+        let n = 1300 + 400 * j;
+        for q in 0..n {
+            let l = strip_floats(&spec.lines[q % spec.lines.len()]);
+            text.extend_from_slice(l.as_bytes());
+            text.push(b'\n');
+        }
+        w.push("cvfz", vec![hex(&text)]);
     }
     let n = if thorough { 1200 } else { 120 };
     let fixed: Vec<(Vec<Vec<u8>>, String)> = vec![
@@ -339,5 +498,9 @@ pub fn generate(rng: &mut Rng, tier: &str, w: &mut CaseWriter) {
 }
 
 pub fn run(c: &Case) -> Obs {
-    if c.kind == "cvf" { run_cvf(c) } else { run_cv(c) }
+    match c.kind.as_str() {
+        "cvf" => run_cvf(c),
+        "cvfb" | "cvbf" | "cvfz" | "cvbz" => run_file(c),
+        _ => run_cv(c),
+    }
 }
